@@ -4,7 +4,7 @@
     [compute_orthonormal_basis] and [_center_xi_realizations] by python-ast, DAG wiring by introspection. *)
 From Coq Require Import String Reals List.
 From Leaspy Require Import Base.RAux Formulas.Ortho Formulas.OrthoProofs Formulas.Gauge Formulas.GaugeProofs Formulas.GaugeTie.
-From Leaspy Require Import Formulas.OrthoBranchProofs Formulas.OrthoBranchTie.
+From Leaspy Require Import Formulas.OrthoBranchProofs Formulas.OrthoBranchTie Formulas.GaugeAll.
 From LeaspyGen Require Import GenC10.
 Import ListNotations.
 Local Open Scope R_scope.
@@ -267,3 +267,60 @@ Theorem C10_basis_collinear_branches : forall (c : R) (j : nat) (d : list R) (g 
   gen_ortho_basis_2d j (vscale c d) G2 = gen_ortho_basis_2d j d G2.
 Proof. exact gen_branches_collinear. Qed.
 Print Assumptions C10_basis_collinear_branches.
+
+(** ---- extension: EVERY copy of _center_xi_realizations in the source, and the mixture model ----
+    [gen_center_scripts] has one entry ((kind, defining class), (model has n_log_nu, translated script)) per shipped
+    model kind whose class resolves the method; [gen_center_classes] = the classes of leaspy/models/ whose body
+    defines it (python-ast scan of the source). *)
+
+(** Each copy performs exactly the gauge move m = mean xi — n_log_nu included exactly when the model has it — and
+    touches nothing else; every defining class of the source is reached; the scripts of logistic / linear / joint
+    are the ones of C10_script / C10_script_joint. *)
+Theorem C10_script_all_classes :
+  Forall (fun e => script_gauge (fst (snd e)) (snd (snd e))) gen_center_scripts /\
+  (classes_covered_b = true /\ gen_center_classes <> []) /\
+  (In (("logistic", "RiemanianManifoldModel"), (false, gen_center_script_logistic))%string gen_center_scripts /\
+   In (("linear", "RiemanianManifoldModel"), (false, gen_center_script_linear))%string gen_center_scripts /\
+   In (("joint", "JointModel"), (true, gen_center_script_joint))%string gen_center_scripts).
+Proof. split; [exact all_scripts_gauge | split; [exact classes_covered | exact scripts_of_the_kinds]]. Qed.
+Print Assumptions C10_script_all_classes.
+
+(** The mixture model (its own copy of the step; sources are mandatory): the move leaves its trajectory and its
+    attachment term unchanged for all reals, and the basis — hence the space shifts — too. *)
+Theorem C10_gauge_mixture :
+  (forall m y s lg lv xi tau t w : R,
+     gen_mixture_traj_src lg (lv + m) (xi - m) tau t w = gen_mixture_traj_src lg lv xi tau t w /\
+     gen_mixture_attach_src y s lg (lv + m) (xi - m) tau t w = gen_mixture_attach_src y s lg lv xi tau t w) /\
+  (forall (m : R) (lgl lvl : list R) (betas sources : matrix),
+     gen_mixture_basis lgl (shift m lvl) = gen_mixture_basis lgl lvl /\
+     gen_mixture_space_shifts sources (gen_mixture_mixing (gen_mixture_basis lgl (shift m lvl)) betas)
+       = gen_mixture_space_shifts sources (gen_mixture_mixing (gen_mixture_basis lgl lvl) betas)).
+Proof.
+  split; [exact gauge_mixture | intros; split; [apply gauge_basis_mixture | apply gauge_space_shifts_mixture]].
+Qed.
+Print Assumptions C10_gauge_mixture.
+
+(** Mixture model: rows of the mixing matrix and individual space shifts are orthogonal to G∘d; DAG wiring tie. *)
+Theorem C10_mixture_orthogonal :
+  forall (lgl lvl : list R) (betas sources : matrix) (k : nat),
+  (length lgl = length lvl -> (0 < length lvl)%nat -> (S (length betas) <= length lvl)%nat ->
+   dot (nth k (gen_mixture_mixing (gen_mixture_basis lgl lvl) betas) [])
+       (vmul (map gen_mixture_G lgl) (map gen_mixture_dir lvl)) = 0 /\
+   dot (nth k (gen_mixture_space_shifts sources (gen_mixture_mixing (gen_mixture_basis lgl lvl) betas)) [])
+       (vmul (map gen_mixture_G lgl) (map gen_mixture_dir lvl)) = 0) /\
+  (forall B : matrix, gen_mixture_mixing B betas = mixing_matrix B betas /\
+                      gen_mixture_space_shifts sources B = space_shifts sources B).
+Proof. intros. split; [now apply mixture_orthogonal | intros B; apply tie_wiring_mixture]. Qed.
+Print Assumptions C10_mixture_orthogonal.
+
+(** The mixture model's compute_sufficient_statistics also calls _center_sources_realizations: translated, it is
+    sources := sources - mean(all entries of sources), nothing else — and that is NOT a gauge change: nothing
+    compensates it and the space shifts (hence the trajectories) move.  Replayed on the code at every run. *)
+Theorem C10_mixture_sources_centring_refuted :
+  (forall (st : store) (ss : list R), st "sources"%string = Some (VV ss) ->
+     exists st', run_script gen_center_extra_mixture_sources st empty = Some st' /\
+                 st' "sources"%string = Some (VV (center ss)) /\ forall v, v <> "sources"%string -> st' v = st v) /\
+  (exists (ss : list R) (M : matrix),
+     space_shifts (map (fun x => [x]) (center ss)) M <> space_shifts (map (fun x => [x]) ss) M).
+Proof. split; [exact script_mixture_sources | exact mixture_sources_centring_moves_space_shifts]. Qed.
+Print Assumptions C10_mixture_sources_centring_refuted.
